@@ -45,6 +45,23 @@ func ZZ_C14_statusFn() {
 	}
 	ds := zzEDS("ns", "foo", tpl, canary)
 	ds.Status.ActiveReplicaSet = "foo-a"
+	// what the previous reconcile left in the status must not leak into the new one
+	ds.Status.State = datadoghqv1alpha1.ExtendedDaemonSetStatusState(nondet.String("prev.state", "", "Running", "Canary", "Canary Paused", "Canary Failed", "Rollout frozen"))
+	ds.Status.Reason = datadoghqv1alpha1.ExtendedDaemonSetStatusReason(nondet.String("prev.reason", "", "CrashLoopBackOff", "OOMKilled"))
+	if nondet.Bool("prev.pausedCond.present") {
+		st := corev1.ConditionFalse
+		if nondet.Bool("prev.pausedCond.true") {
+			st = corev1.ConditionTrue
+		}
+		ds.Status.Conditions = append(ds.Status.Conditions, datadoghqv1alpha1.ExtendedDaemonSetCondition{Type: datadoghqv1alpha1.ConditionTypeEDSCanaryPaused, Status: st, Reason: "CrashLoopBackOff",
+			LastTransitionTime: metav1.NewTime(nondet.Base().Add(-time.Hour)), LastUpdateTime: metav1.NewTime(nondet.Base().Add(-time.Hour))})
+	}
+	if nondet.Bool("prev.canaryBlock") {
+		ds.Status.Canary = &datadoghqv1alpha1.ExtendedDaemonSetStatusCanary{ReplicaSet: "foo-b", Nodes: []string{"node0"}}
+	}
+	nondet.Fact("noCanaryStrategy", !withCanary)
+	nondet.Fact("prevCanaryBlock", ds.Status.Canary != nil)
+	nondet.Fact("prevReason", ds.Status.Reason != "")
 	c := fakeapi.New()
 	rsA := zzRS(ds, "A", "foo-a", nondet.Base().Add(-24*time.Hour))
 	zzCounters(rsA, "rsA")
@@ -91,6 +108,7 @@ func ZZ_C14_statusFn() {
 
 	_, err := zzReconcile(zzReconciler(c), "ns", "foo")
 	nondet.Assert("C14.status.noerror", err == nil)
+	// the status "after the reconcile": what it wrote, or — when it found nothing to change — what is stored
 	var w *datadoghqv1alpha1.ExtendedDaemonSetStatus
 	for _, e := range c.Log {
 		if e.Verb == "status-update" && e.Kind == "ExtendedDaemonSet" {
@@ -98,9 +116,8 @@ func ZZ_C14_statusFn() {
 			break
 		}
 	}
-	nondet.Assert("C14.status.written", w != nil)
 	if w == nil {
-		return
+		w = &zzStoredEDS(c, "ns", "foo").Status
 	}
 	// ---- reference, from the statement ----
 	sumCur, sumReady, sumAvail := rsA.Status.Current, rsA.Status.Ready, rsA.Status.Available
@@ -161,9 +178,19 @@ func ZZ_C14_statusFn() {
 	if canaryActive && paused && condPaused {
 		nondet.Assert("C14.status.reason", w.Reason == "CrashLoopBackOff")
 	}
+	if canaryActive && paused && !condPaused {
+		// paused by the annotation alone, without a reason annotation
+		nondet.Assert("C14.status.reason-annotation", w.Reason == datadoghqv1alpha1.ExtendedDaemonSetStatusReasonUnknown)
+	}
+	// "state, reason ... agree with the canary facts and annotations": a reason is reported only
+	// for a paused canary, whatever the previous status said
+	if !(canaryActive && paused) {
+		nondet.Assert("C14.status.no-stale-reason", w.Reason == "")
+	}
 	nondet.Observe("state", string(w.State))
 	nondet.Observe("active", w.ActiveReplicaSet)
 	nondet.Reach("C14.status.canary", canaryActive && !paused)
+	nondet.Reach("C14.status.resumed-after-pause", canaryActive && !paused && ds.Status.Reason != "")
 	nondet.Reach("C14.status.canary-paused", canaryActive && paused)
 	nondet.Reach("C14.status.failed", failed)
 	nondet.Reach("C14.status.promoted", newTemplate && w.ActiveReplicaSet == "foo-b")
